@@ -61,6 +61,7 @@ type C07Plan struct {
 	Cons       []C07Cons       `json:"cons"`
 	Batch      int             `json:"batch"`
 	Sr         bool            `json:"sr,omitempty"`       // interleave RTCP sender reports
+	AacAgg     int             `json:"aac_agg,omitempty"`  // RTSP: up to this many time-contiguous AAC access units share one RTP packet
 	AacFrag    int             `json:"aac_frag,omitempty"` // RTSP: AAC access units larger than this many payload bytes are fragmented
 	Custom     *C07Custom      `json:"custom,omitempty"`   // Transport == "custom": the customize-pub API
 	Ps         *C07Ps          `json:"ps,omitempty"`       // Transport == "gb_udp" | "gb_tcp": GB28181 PS over RTP
@@ -180,6 +181,8 @@ func genC07Plan(r *sim.Rng, tier string) C07Plan {
 	if p.kind() == "rtsp" && p.Audio == "aac" {
 		if r.Bool(0.3) {
 			p.AacFrag = []int{24, 60, 200, 500}[r.Intn(4)]
+		} else if r.Bool(0.3) {
+			p.AacAgg = 2 + r.Intn(2)
 		}
 		if r.Bool(0.06) {
 			// more fragmented access units than the reorder list has slots, then a perturbed arrival
@@ -392,6 +395,27 @@ func buildC07(p *C07Plan) *c07Src {
 			s.lastFr[1] = fi
 			switch kind {
 			case "rtsp":
+				if pairedWithPrev[fi] {
+					// rode in the aggregate packet of an earlier frame
+					s.pktEnd[1] = append(s.pktEnd[1], len(s.pkts[1])-1)
+					break
+				}
+				if p.AacAgg > 1 && p.Audio == "aac" && p.AacFrag == 0 {
+					group := [][]byte{data}
+					size := 2 + 2 + len(data)
+					// (a sender aggregates only what still fits into one datagram)
+					for x := fi + 1; x < len(p.Frames) && len(group) < p.AacAgg && p.Frames[x].Track == 1 && p.Frames[x].Ts == p.Frames[x-1].Ts+1024 && size+2+p.Frames[x].N <= 1400; x++ {
+						group = append(group, media.Body(7, 1, x, p.Frames[x].N))
+						size += 2 + p.Frames[x].N
+						pairedWithPrev[x] = true
+					}
+					if len(group) > 1 {
+						idx = append(idx, len(s.pkts[1]))
+						s.pkts[1] = append(s.pkts[1], pk[1].PackAacAggregate(group, uint32(uint64(p.TsStart[1])+f.Ts)))
+						s.pktEnd[1] = append(s.pktEnd[1], len(s.pkts[1])-1)
+						break
+					}
+				}
 				for _, q := range pk[1].PackAudio(data, uint32(uint64(p.TsStart[1])+f.Ts)) {
 					idx = append(idx, len(s.pkts[1]))
 					s.pkts[1] = append(s.pkts[1], q)
@@ -975,7 +999,7 @@ func runC07(k *sim.Kernel, p C07Plan) {
 				k.Violate("C07.transport-gone", "the publisher's transport vanished while publishing (closed=%v %s)", gone, why)
 			}
 		}
-		if rp, ok := pub.(*c07RtspPub); ok && p.Sr && fi%7 == 3 {
+		if rp, ok := pub.(*c07RtspPub); ok && p.Sr && fi%7 == 3 && len(src.fpk[fi]) > 0 {
 			pkt := src.pkts[t][src.fpk[fi][0]]
 			rp.c.SendRaw(src.trackIndex(t), true, rtpc.SenderReport(pkt.Ssrc, 1000+uint32(fi), 0, pkt.Ts, uint32(sent[t]), 0))
 		}
